@@ -340,6 +340,14 @@ Definition hooked (o : op) : bool :=
   | _ => true
   end.
 
+(* shutdown(): `if self._connection: self._connection.close()` -- the close() call is an instrumented point only when there
+   is a current connection *)
+Definition hooked_s (s : state) (o : op) : bool :=
+  match o with
+  | ShutdownCloseMain => match cur s with Some _ => true | None => false end
+  | _ => hooked o
+  end.
+
 (* observable state, as a list of integers *)
 Definition b2z (b : bool) : Z := if b then 1 else 0.
 Definition snap_conn (k : conn) : list Z :=
@@ -358,7 +366,7 @@ Fixpoint run_prog0 (p : prog) (s : state) (acc : list (list Z)) : state * list (
   match p with
   | Ret r => (s, res_code r :: snap s :: acc)
   | Do o k =>
-      let acc1 := if hooked o then snap s :: acc else acc in
+      let acc1 := if hooked_s s o then snap s :: acc else acc in
       let '(s2, r) := step s o in run_prog0 (k r) s2 acc1
   end.
 
@@ -372,7 +380,7 @@ Fixpoint run_prog (p : prog) (ints : list (list mop0)) (s : state) (acc : list (
   match p with
   | Ret r => (s, res_code r :: snap s :: acc)
   | Do o k =>
-      if hooked o then
+      if hooked_s s o then
         let '(s1, acc1) := run_ints (hd [] ints) s (snap s :: acc) in
         let '(s2, r) := step s1 o in run_prog (k r) (tl ints) s2 acc1
       else let '(s2, r) := step s o in run_prog (k r) ints s2 acc
